@@ -50,9 +50,11 @@ type Contract struct {
 	Line       int
 	Covers     []*Clause
 	Asserts    map[string][]*Clause // anchor -> assert clauses (anchor "call:Name@n")
+	RequiredAnchor map[string]bool // anchors carrying at least one `assert` (as opposed to only `hint`s): a missing call is then an obligation
 	HavocCalls bool
 	RecvFrom   []*RecvRule
 	Binds      []*Clause // logical (ghost) variables bound to entry values
+	Yields     []*Clause // logical (ghost) variables naming values at return
 }
 
 // RecvRule: facts (and ghost effects) attached to a channel receive.
@@ -141,7 +143,7 @@ var clauseKeywords = map[string]bool{
 	"modifies": true, "loop": true, "lit": true, "inline": true, "pure": true, "arith": true,
 	"nowrap": true, "concurrent": true, "deterministic": true, "ghost": true, "spec": true,
 	"axiom": true, "lemma": true, "const-invariant": true, "type": true, "guarded_by": true,
-	"monitor": true, "invariant": true, "cover": true, "trusted": true, "opt": true, "assert": true, "binds": true,
+	"monitor": true, "invariant": true, "cover": true, "trusted": true, "opt": true, "assert": true, "hint": true, "binds": true, "yields": true,
 	"havoc-calls": true, "end": true, "recv": true, "recv-from": true, "sort-less": true, "writers": true,
 }
 
@@ -260,7 +262,7 @@ func parseContractFile(path, pkgPath string) (*ContractFile, error) {
 			case "cover":
 				target.Covers = append(target.Covers, c)
 			}
-		case "assert":
+		case "assert", "hint":
 			// assert <anchor> : expr   (anchor e.g. call:Foo@1)
 			if target == nil {
 				return nil, fail(l, "assert outside func block")
@@ -282,6 +284,12 @@ func parseContractFile(path, pkgPath string) (*ContractFile, error) {
 			}
 			c.Name = label
 			target.Asserts[anchor] = append(target.Asserts[anchor], c)
+			if word == "assert" {
+				if target.RequiredAnchor == nil {
+					target.RequiredAnchor = map[string]bool{}
+				}
+				target.RequiredAnchor[anchor] = true
+			}
 		case "modifies":
 			if target == nil {
 				return nil, fail(l, "modifies outside func block")
@@ -415,6 +423,19 @@ func parseContractFile(path, pkgPath string) (*ContractFile, error) {
 			}
 			c.Name = name
 			target.Binds = append(target.Binds, c)
+		case "yields":
+			// yields ghost.name = expr : a logical variable naming a value at return
+			k := strings.Index(rest, "=")
+			if k < 0 || !strings.HasPrefix(strings.TrimSpace(rest), "ghost.") {
+				return nil, fail(l, "yields ghost.<name> = <expr>")
+			}
+			name := strings.TrimPrefix(strings.TrimSpace(rest[:k]), "ghost.")
+			c, err := mkClause("yields", strings.TrimSpace(rest[k+1:]), l)
+			if err != nil {
+				return nil, err
+			}
+			c.Name = name
+			target.Yields = append(target.Yields, c)
 		case "trusted":
 			if curLemma != nil {
 				curLemma.Trusted = true
